@@ -26,8 +26,23 @@ def make_fluid(ctx, cols=None, kind="DataFrame"):
     return c09.obj_of(o), o
 
 
+TIME_DTYPE = ["f8"]  # contracts switch this to "i8" to run the same obligations on an integer-typed time grid
+
+
 def time_arr():
+    if TIME_DTYPE[0] == "i8":
+        return ArrV((nt,), lambda i: tm.app("t", i, tm.I), "i8", name="t")
     return ArrV((nt,), lambda i: tm.app("t", i), "f8", name="t")
+
+
+class int_time:
+    """context: the time grid is an int64 array (np.arange(...) days)"""
+
+    def __enter__(self):
+        TIME_DTYPE[0] = "i8"
+
+    def __exit__(self, *a):
+        TIME_DTYPE[0] = "f8"
 
 
 def sched_arr(length=None):
@@ -270,3 +285,29 @@ def install_method_contracts(ctx):
 def uninstall_method_contracts(ctx):
     for q in (FP + "FlowProperties.__init__", SSIM, ISIM, RF):
         ctx.engine.opaque.pop(q, None)
+
+
+def int_grid_replay(w=None):
+    """concrete scenario: whole-day integer time stamps and a non-integer frac-face pressure; the scalar setting must
+    equal the constant schedule, and the frac-face node of level 0 must be m_scaled_func(p_f)"""
+    import warnings
+    import numpy as np
+    import pandas as pd
+    warnings.simplefilter("ignore")
+    flow = __import__("bluebonnet.flow", fromlist=["x"])
+    pvt = pd.read_csv("/repo/tests/data/pvt_gas.csv").rename(columns={"P": "pressure", "Z-Factor": "z-factor", "Cg": "compressibility", "Viscosity": "viscosity", "Density": "density"})
+    fp = flow.FlowProperties(pvt, 8000.0)
+    pf_ = 1000.75
+    for t in (np.arange(0, 40), np.arange(0, 40, dtype="int32")):
+        a = flow.SinglePhaseReservoir(12, pf_, 8000.0, fp)
+        a.simulate(t / 1)  # float copy of the same instants
+        b = flow.SinglePhaseReservoir(12, pf_, 8000.0, fp)
+        b.simulate(t)
+        c = flow.SinglePhaseReservoir(12, pf_, 8000.0, fp)
+        c.simulate(t, np.full(len(t), pf_))
+        m_f = float(fp.m_scaled_func(pf_))
+        if b.pseudopressure[0, 0] != m_f or not np.array_equal(b.pseudopressure, c.pseudopressure) or not np.allclose(a.pseudopressure, b.pseudopressure, rtol=0, atol=1e-12):
+            return {"reproduced": True, "input": {"time": f"np.arange(0, 40) ({t.dtype})", "p_f": pf_, "p_i": 8000.0, "nx": 12, "table": "tests/data/pvt_gas.csv"},
+                    "observed": {"pp[0,0]": float(b.pseudopressure[0, 0]), "max |scalar - constant schedule|": float(np.abs(b.pseudopressure - c.pseudopressure).max()), "max |int grid - float grid|": float(np.abs(a.pseudopressure - b.pseudopressure).max())},
+                    "required": {"pp[0,0]": m_f, "differences": 0.0}}
+    return {"reproduced": False}
